@@ -467,6 +467,26 @@ func (c *Ctx) StateStoreDiscipline(prop string, s *Slashing, kind string) {
 			bad++
 			c.R.Fail(rule, Fn(fn)+":"+fs.Field, c.Pos(fs.Store), "the watermark field "+fs.Field+" can be overwritten on a path that has not passed the comparison with its previous value (the watermark could move backwards)", "written only after the "+d.Name+" comparison (or after the check returned APPROVED)", an.PathString(c.Pos, path))
 		}
+		// a check function that writes into its caller's state object must not refuse afterwards: the batch entry
+		// persists every state object whatever the verdict of its position
+		if p, isParam := an.Unspill(fa.X).(*ssa.Parameter); isParam && p.Parent() == fn {
+			k := -1
+			res := fn.Signature.Results()
+			for i := 0; i < res.Len(); i++ {
+				if namedIs(res.At(i).Type(), pkgRules, "Result") {
+					k = i
+				}
+			}
+			if k >= 0 {
+				if x, path := an.Cut(an.CutQuery{From: an.After(fs.Store), Target: func(i ssa.Instruction) bool {
+					ret, isRet := i.(*ssa.Return)
+					return isRet && !an.IsConstInt(an.Result(ret, k), s.APPROVED)
+				}}); x != nil {
+					bad++
+					c.R.Fail(rule, Fn(fn)+":"+fs.Field+":refused-after-write", c.Pos(fs.Store), "the caller's watermark object is modified and the request can still be refused afterwards: the batch path records every state object, so a refused request moves the watermark", "watermark fields are written only when nothing but APPROVED can follow", an.PathString(c.Pos, path))
+				}
+			}
+		}
 	}
 	floor := 4
 	if kind == "att" {
